@@ -48,6 +48,10 @@ def gen_ops(rng, tier):
     for kind in (1, 6):
         for mode in ((2, 3, 5) if big else (2,)):
             ops.append("ent 3 1456 1456 8 %d %d %d 0 0 %d -1" % (rng.randrange(1 << 20), kind, mode, rng.randrange(1 << 20)))
+    # arithmetic coding of a flat image with an isolated block about every 11000 blocks: the adaptive statistics climb to the
+    # small-Qe end of the probability-estimation table (states 10..13 of T.81 Table D.3) before a less probable symbol is coded
+    for mode in ((4, 5, 7) if big else (4, 5)):
+        ops.append("ent 3 1456 1456 8 %d 8 %d 0 0 %d -1" % (rng.randrange(1 << 20), mode, rng.randrange(1 << 20)))
     # restart interval given in rows reaching the 16-bit limit of DRI, with more MCUs than that in the scan
     for rows in (255, 256):
         ops.append("ent 3 2048 2056 8 %d 1 0 0 %d 0 -1" % (rng.randrange(1 << 20), rows))
@@ -102,6 +106,7 @@ def search(ctx, failing_ops):
             kind, sseed = (p[8], p[9]) if p[0] == "progfile" else ((p[8], p[10]) if p[0] == "arifile" else ("0", "0"))
             mode = p[9] if p[0] == "arifile" else ("0" if p[0] != "progfile" else ("2" if sseed == "0" else "3"))
             ops.append("ent %s %s %s 8 %s %s %s %s 0 %s -1" % (ss, p[2], p[3], p[1], kind, mode, p[4], sseed))
+    ops += ["ent 3 1456 1456 8 %d 8 %d 0 0 %d -1" % (rng.randrange(1 << 20), m, rng.randrange(1 << 20)) for m in (4, 5)]
     ops += [one(rng) for _ in range(300)]
     found = []
     for v, exe in ctx["exes"].items():
